@@ -1113,6 +1113,13 @@ impl<'a> GeneratorState<'a> {
     }
 
     fn generate_csleep_statement(&mut self, cycles: i32, pos: usize) -> Result<(), Error> {
+        // Odd and long delays are built with STA/DEC DUMMY: without that zero-page location
+        // (declared for the Atari 2600 target only) they cannot be generated
+        if matches!(cycles, 3 | 5 | 9 | 10) && !self.compiler_state.variables.contains_key("DUMMY") {
+            return Err(self
+                .compiler_state
+                .syntax_error("Unsupported cycle sleep value", pos));
+        }
         match cycles {
             2 => self.sasm_protected(NOP)?,
             3 => self.asm(
